@@ -10,7 +10,7 @@ from pvm.ref import frames as F
 
 KINDS = ["tcp", "udp", "icmp", "ipother", "tcp_opts", "frag_first",
          "frag_later", "arp_req", "arp_rep", "other", "llc", "snap0",
-         "snapx", "snap_ip", "lldp", "ipv6", "qinq"]
+         "snapx", "snap_ip", "lldp", "ipv6", "qinq", "rarp", "frag_other"]
 
 MACS = [bytes.fromhex(x) for x in
         ("000000000001", "000000000002", "0200000000aa", "ffffffffffff",
@@ -69,6 +69,17 @@ def gen_frame (rng, kind=None, tagged=None, pad=None, payload_len=None,
                 ip(rng.choice([6, 17, 1]), struct.pack("!HHHH", 80, 81, 82, 83)
                    + data, flags=rng.choice([0, 1]),
                    frag=rng.choice([1, 2, 185, 8191])), vlan, pad)
+  elif k == "rarp":
+    # reverse ARP: same body as ARP under ethertype 0x8035 (not an ARP frame
+    # as far as OpenFlow 1.0 matching goes)
+    raw = F.eth(dst, src, 0x8035, F.arp(rng.choice([3, 4]), src, sip, MACS[0], dip),
+                vlan, pad)
+  elif k == "frag_other":
+    # a fragment (first or later) of a protocol without ports
+    raw = F.eth(dst, src, 0x0800,
+                ip(rng.choice([89, 47, 50, 132]), data + b"\0" * 8,
+                   flags=rng.choice([0, 1]), frag=rng.choice([0, 1, 185]) or
+                   (0 if rng.random() < 0.5 else 3)), vlan, pad)
   elif k in ("arp_req", "arp_rep"):
     op = 1 if k == "arp_req" else 2
     if rng.random() < 0.1: op = rng.choice([3, 4, 255])
